@@ -236,6 +236,26 @@ func init() {
 	intrinsics["math/rand.Read"] = randRead
 }
 
+func init() {
+	foreignGlobals["golang.org/x/sys/cpu.X86"] = func(e *Engine, t types.Type) Value {
+		v := zeroValue(t).(*StructV)
+		st := t.Underlying().(*types.Struct)
+		for i := 0; i < st.NumFields(); i++ {
+			if st.Field(i).Name() == "HasBMI2" {
+				switch e.spec.BMI2 {
+				case "asm":
+					v.F[i] = tTrue
+				case "either":
+					v.F[i] = e.newNondet("cpu.HasBMI2", "bool", 1, BoolSort, 0)
+				default:
+					v.F[i] = tFalse
+				}
+			}
+		}
+		return v
+	}
+}
+
 func ifaceIsError(e *Engine, iv *IfaceV) bool {
 	for _, al := range iv.A {
 		if al.Typ == opaqueErrT {
@@ -313,3 +333,70 @@ func (e *Engine) packageRule(fr *frame, fn *ssa.Function, args []Value, g *Term,
 }
 
 var _ = fmt.Sprintf
+
+// ---- hashes and KDFs: uninterpreted functions of their full input ----
+
+// bytesAsArgs turns a byte slice of constant length <= 64 into UF arguments;
+// longer or symbolic-length inputs become (array, length).
+func (e *Engine) bytesAsArgs(s *SliceV) ([]*Term, string) {
+	if len(s.Arr.T) == 0 {
+		return []*Term{}, "n0"
+	}
+	a := e.sliceArr(s)
+	if s.Len.IsConst() && s.Len.val <= 128 {
+		// pack into 64-bit words (big endian), last word narrower
+		var ts []*Term
+		n := int(s.Len.val)
+		for i := 0; i < n; i += 8 {
+			var w *Term
+			for j := i; j < i+8 && j < n; j++ {
+				b := Select(a.T, Add(s.Off, c64(int64(j))))
+				if w == nil {
+					w = b
+				} else {
+					w = Concat(w, b)
+				}
+			}
+			ts = append(ts, w)
+		}
+		return ts, fmt.Sprintf("n%d", n)
+	}
+	mx := 1 << 16
+	return []*Term{shiftArr(a.T, s.Off, mx, 8), s.Len}, "arr"
+}
+
+// ufBytes returns outLen bytes produced by 64-bit-word uninterpreted functions.
+func (e *Engine) ufBytes(name string, outLen int, args []*Term) *ArrV {
+	t := ConstArr(64, 8, Const(8, 0))
+	for i := 0; i < outLen; i += 8 {
+		w := Apply(fmt.Sprintf("%s.w%d", name, i/8), BV(64), args...)
+		for j := 0; j < 8 && i+j < outLen; j++ {
+			t = Store(t, c64(int64(i+j)), Extract(w, 63-8*j, 56-8*j))
+		}
+	}
+	return &ArrV{T: t, N: c64(int64(outLen)), EW: 8}
+}
+
+func init() {
+	intrinsics["crypto/sha256.Sum256"] = func(e *Engine, fr *frame, fn *ssa.Function, args []Value, g *Term, pos token.Pos) Value {
+		ts, shape := e.bytesAsArgs(args[0].(*SliceV))
+		if len(ts) == 0 {
+			ts = []*Term{c64(0)}
+		}
+		return e.ufBytes("sha256."+shape, 32, ts)
+	}
+	intrinsics["golang.org/x/crypto/pbkdf2.Key"] = func(e *Engine, fr *frame, fn *ssa.Function, args []Value, g *Term, pos token.Pos) Value {
+		pw, s1 := e.bytesAsArgs(args[0].(*SliceV))
+		salt, s2 := e.bytesAsArgs(args[1].(*SliceV))
+		iter := args[2].(*Term)
+		klen := args[3].(*Term)
+		if !klen.IsConst() {
+			panic(unsupported("pbkdf2.Key with symbolic key length"))
+		}
+		all := append(append([]*Term{}, pw...), salt...)
+		all = append(all, iter, klen)
+		arr := e.ufBytes("pbkdf2."+s1+"."+s2, int(klen.val), all)
+		o := newObject("pbkdf2key", types.NewArray(types.Typ[types.Uint8], int64(klen.val)), arr)
+		return &SliceV{Arr: ptrTo(o), Off: c64(0), Len: klen, Cap: klen}
+	}
+}
